@@ -151,6 +151,7 @@ class TConst(T):
 # ------------------------------------------------------------------------------- contract
 LOWER = z3.Function("LOWER", z3.StringSort(), z3.StringSort())
 STRIP = z3.Function("STRIP", z3.StringSort(), z3.StringSort())
+RSTRIP = z3.Function("RSTRIP", z3.StringSort(), z3.StringSort())
 REPLACE_ALL = z3.Function("REPLACE_ALL", z3.StringSort(), z3.StringSort(), z3.StringSort(), z3.StringSort())
 ISSPACE_HI = z3.Function("ISSPACE_HI", z3.IntSort(), z3.BoolSort())
 ISALPHA_HI = z3.Function("ISALPHA_HI", z3.IntSort(), z3.BoolSort())
@@ -260,6 +261,9 @@ class Contract:
     def strip(self, t):
         return STRIP(t)
 
+    def rstrip(self, t):
+        return RSTRIP(t)
+
     def isspace_char(self, c):
         """str.isspace() of one character: exact on ASCII, uninterpreted above"""
         asc = z3.Or(z3.And(c >= 9, c <= 13), z3.And(c >= 28, c <= 32))
@@ -309,6 +313,14 @@ class Contract:
                 if g is None:
                     continue
                 eng.oblige(o.path, g, f"post.{nm}[{tr}]", role, f"ensures '{nm}' on return path {tr}")
+        elif o.kind in ("continue", "break"):
+            hooks = getattr(self, "on_" + o.kind, None)
+            if hooks is None:
+                raise EngineError(f"{o.kind} leaves the block but the contract has no on_{o.kind} clause")
+            for nm, fn in hooks:
+                g = fn(v0, v1)
+                if g is not None:
+                    eng.oblige(o.path, g, f"{o.kind}.{nm}[{tr}]", "post", f"block exit by {o.kind}: '{nm}' on path {tr}")
         elif o.kind == "raise":
             if self.no_raise or (self.allowed_raises is not None and o.value not in self.allowed_raises):
                 eng.oblige(o.path, z3.BoolVal(False), f"post.no_raise[{tr}]", "post", f"no {o.value} escapes (path {tr})")
